@@ -29,6 +29,9 @@ type c11Req struct {
 	UidSel int    `json:"uidsel"` // 0 -> 0, 1 -> caller's uid, 2 -> 4242
 	GidSel int    `json:"gidsel"`
 	Mode   bool   `json:"mode"`
+	// Op "update": a runtime reconfiguration that does not ask for another squash mode (Squash is documented
+	// immutable at runtime, so the construction mode stays in force whatever the update's fate)
+	Upd string `json:"upd,omitempty"` // policy-empty policy-same export-empty export-same
 }
 
 type c11Case struct {
@@ -53,7 +56,8 @@ func genC11(t *rapid.T) c11Case {
 	n := rapid.IntRange(1, 8).Draw(t, "n")
 	for i := 0; i < n; i++ {
 		c.Reqs = append(c.Reqs, c11Req{
-			Op:     pick(t, "op", "setattr", "setattr", "create", "create", "mkdir", "symlink"),
+			Op:     pick(t, "op", "setattr", "setattr", "setattr", "create", "create", "create", "mkdir", "mkdir", "symlink", "symlink", "update"),
+			Upd:    pick(t, "upd", "policy-empty", "policy-same", "export-empty", "export-same"),
 			On:     pick(t, "on", "f", "d", "l", "f"),
 			How:    pick(t, "how", uint32(0), 1),
 			SetUid: rapid.Bool().Draw(t, "su"), SetGid: rapid.Bool().Draw(t, "sg"),
@@ -115,6 +119,24 @@ func runC11(tb stat.TB, c c11Case) {
 			name := fmt.Sprintf("new%d", i)
 			var res *nfsx.Res
 			switch rq.Op {
+			case "update":
+				var uerr error
+				switch rq.Upd {
+				case "policy-empty":
+					uerr = s.e.NFS.UpdatePolicyOptions(absnfs.PolicyOptions{})
+				case "policy-same":
+					uerr = s.e.NFS.UpdatePolicyOptions(absnfs.PolicyOptions{Squash: c.Squash})
+				case "export-empty":
+					uerr = s.e.NFS.UpdateExportOptions(absnfs.ExportOptions{})
+				default:
+					uerr = s.e.NFS.UpdateExportOptions(absnfs.ExportOptions{Squash: c.Squash})
+				}
+				if uerr != nil {
+					stat.Label("runtime_update_rejected", 1)
+				} else {
+					stat.Label("runtime_update_accepted", 1)
+				}
+				continue
 			case "setattr":
 				res = s.nfsAs(cl, nfsx.ProcSetattr, nfsx.ArgsSetattr(fh[rq.On], sa, nil))
 			case "create":
